@@ -164,7 +164,7 @@ def main():
             last = ops[-1]["op"] if ops else "setup"
             if rc == -999:
                 pred(j, "planner does not return: history still running after 90 s (during op %d '%s'; every condition fires within 0.4 s or 20000 evaluations)" % (len(ops), last),
-                     "C03-lazylbtrrt-lpastar-parent-cycle" if pl == "LazyLBTRRT" else None)
+                     None)
             else: pred(j, "crash (exit %s) during op %d '%s' %s" % (rc, len(ops), last, err[-120:].replace("\n", " ")), hist_slug)
             stats["no_return"] += 1; continue
         stats["histories"] += 1
@@ -326,11 +326,56 @@ def main():
         except Exception as ex:
             pred(cl, "resumed geometric::RRTConnect: no observation (%s) %s" % (ex, a[:80]))
     c.cov.update({"rrtconnect_resumed_scripts": len(clines), "rrtconnect_resumed_reports": dict(rcn_stats)})
+    # ---- (e) LazyLBTRRT's LPAstarOnGraph against LpaModel (repaired queue-removal rule): scripted edge insertions / removals / shortest-path
+    #      computations on LazyLBTRRT's graph type; after every operation the whole state (g, rhs, parent, flag of every node, queue order) and
+    #      every answer must agree; on the implementation no flag may disagree with the queue, no inconsistent node may be unqueued, no call hang
+    try:
+        ldrv = c.build_driver("lpa_driver", link_ompl=False)
+    except vf.BuildError as ex:
+        c.broken.append("correspondence C03: lpa_driver does not build against /repo (LPAstarOnGraph internals renamed?): " + str(ex)[-300:]); c.finish()
+    llines = ["LPA 4 0 3 0 0 0 0 | I 0 3 9 | S | I 0 1 1 | I 0 2 1 | R 0 1 | S",
+              "LPA 7 0 6 0 0 0 0 0 0 0 | I 5 6 3 | I 4 1 1 | R 5 6 | S | I 0 4 1 | S | R 0 4 | I 2 0 1 | R 0 2 | I 4 6 1 | S"]
+    for i in range(400 if quick else 12000):
+        n = rng2.choice([4, 5, 6, 7, 9]); ops = []; edges = set()
+        hs = [0] * n if rng2.random() < 0.6 else [rng2.choice([0, 0, 1, 2]) for _ in range(n)]; hs[n - 1] = 0
+        for k in range(rng2.choice([6, 10, 16, 24, 40])):
+            r = rng2.random()
+            if r < 0.55 or not edges:
+                u, v = rng2.sample(range(n), 2)
+                if (min(u, v), max(u, v)) in edges: continue
+                edges.add((min(u, v), max(u, v))); ops.append("I %d %d %d" % (u, v, rng2.choice([1, 1, 2, 3])))
+            elif r < 0.8:
+                e = rng2.choice(sorted(edges)); edges.discard(e); ops.append("R %d %d" % e)
+            else: ops.append("S")
+        ops.append("S")
+        llines.append("LPA %d 0 %d %s | %s" % (n, n - 1, " ".join(map(str, hs)), " | ".join(ops)))
+    rcl, ol, el, sl = vf.sh([ldrv], input="\n".join(llines) + "\n", timeout=1800); c.step("correspond:impl-lpastar", ldrv, sl, rcl == 0)
+    rcm, om, em, sm = vf.sh([model, "lpa"], input="\n".join(llines) + "\n", timeout=1800); c.step("correspond:model-lpastar", model + " lpa", sm, rcm == 0)
+    ib, mb = ol.split("END\n"), om.split("END\n")
+    lpa_stats = collections.Counter()
+    def canon_lpa(block):
+        outl = []
+        for ln in block.strip().split("\n"):
+            if ln.endswith("HANG"): outl.append("HANG"); break
+            outl.append(ln)
+        return outl
+    for k, ll in enumerate(llines):
+        a = ib[k] if k < len(ib) else "<no output>"; b = mb[k] if k < len(mb) else "<no output>"
+        lpa_stats["scripts"] += 1; lpa_stats["ops"] += ll.count("|")
+        if canon_lpa(a) != canon_lpa(b):
+            ndiff += 1
+            if first_diff is None: first_diff = ("LPAstarOnGraph", ll, " / ".join(canon_lpa(a))[-300:], " / ".join(canon_lpa(b))[-300:])
+        for fl, what in (("HANG", "computeShortestPath does not return (its search or its walk over the parent pointers does not end)"),
+                         ("QFLAG", "a node's isInQueue flag disagrees with the queue"), ("LOST", "an inconsistent node is not in the queue")):
+            if fl in a:
+                lpa_stats[fl] += 1
+                pred(ll, "LazyLBTRRT's LPAstarOnGraph: " + what); break
+    c.cov.update({"lpastar_scripts": dict(lpa_stats)})
     c.cov.update({"evaluations": len(script) + stats["solves"], "traces_validated_against_impl": nscripts + stats["histories"], "distinct_nontrivial": stats["histories"],
                   "rule": "(a) %d random scripts over 1-3 problem definitions (0-4 starts, 0-3 goal states, invalid / out-of-bounds ones included) with USE / CLEAR / RESTART / NEXTSTART / NEXTGOAL / ADDSTART / MORE* operations, compared exactly; (b) %d histories over %d planners: interrupt ladder S0 S<k> (condition true at evaluation k) then resume, clear + same query, clear + new query, new query without clear, clearQuery, getPlannerData, plus random histories (thorough), on allocation-counting R2 / SE2 / R3 spaces with gap / thin-wall / box / circle maps; non-trivial = history that ran to completion" % (nscripts, len(hists), len(PLANNERS)),
                   "disagreements": ndiff, "predicate_failures": npred, "predicate_failures_by_kind": dict(failures), "failing_histories": failing[:40], "status_histogram": dict(stats), "max_further_evaluations_by_planner": dict(further_max), "skipped": skipped})
     c.cov["samples"] = hists[:3]
-    c.cov["trusted_base"] += ["extraction (ExtrOcamlBasic) + extract/pis_driver.ml, ledger_driver.ml; harness/interrupt_driver.cpp, pis_driver.cpp, planning_common.h (call-counting termination conditions, allocation-counting state spaces)"]
+    c.cov["trusted_base"] += ["harness/lpa_driver.cpp (LazyLBTRRT's graph type and call pattern replicated; private members of LPAstarOnGraph reached by re-declaring private as public; each computeShortestPath first tried in a forked child under an alarm) + extract/lpa_driver.ml", "extraction (ExtrOcamlBasic) + extract/pis_driver.ml, ledger_driver.ml; harness/interrupt_driver.cpp, pis_driver.cpp, planning_common.h (call-counting termination conditions, allocation-counting state spaces)"]
     c.assumptions += ["partial: the bookkeeping model is proved and compared exactly; what each planner's solve() does under interruption is checked per history, not proved",
                       "'bounded number of further evaluations' is checked as <= %d evaluations and <= %.0f s" % (MAX_FURTHER, MAX_SECS),
                       "leaks are observed through allocState/freeState counts of the state space only (motions and other heap objects are not counted)"]
